@@ -100,3 +100,5 @@ func bytesJSON(b []byte) Raw {
 	sb.WriteByte(']')
 	return Raw(sb.String())
 }
+
+func fmtInt(i int) string { return strconv.Itoa(i) }
